@@ -122,6 +122,18 @@ CLAIMS = {
          "run repeatedly in C19's stream.",
          "Renaming/statement-permutation invariance is exercised by the shuffled generators but not stated as a theorem.",
          "Lean 4 proof (uniqueness of settlement; graph-level order independence) + repeated builds under fresh hash seeds"),
+ "C14": ("Lean theorems about the model of io.rs: Io.lookupIndex_spec (the standard library's binary search, as compiled, finds the "
+         "greatest table entry not above the target), Io.lineNumberAndBounds_user / C14_line (for every preamble, user text and "
+         "position of the user text up to its end, the reported line number is 1 + the number of line feeds of the user text "
+         "before the position, and the bounds are that line's start and the next line's start), C14_file / C14_file_builtin "
+         "(attribution to the user's file exactly for positions at or after the preamble), C14_region / C14_region_y86 (for every "
+         "valid-UTF-8 user text and every span inside one line, show_region prints header file:line, that line's text without its "
+         "LF/CRLF terminator, and carets under exactly the span), with the hypotheses on the preamble discharged for the text "
+         "extracted from program.rs on this run (C14_preamble_ends_line, C14_preamble_utf8).",
+         "That the spans handed to show_region are those of the offending token is tied by the S-DIAG stream (planted faults of 13 "
+         "kinds) and the lexer/parser span correspondence of C11, not by a theorem about the LALRPOP automaton. Multi-line spans "
+         "are covered by the correspondence only. FileContents::range/line (unused by diagnostics) return byte offsets, noted in DESIGN.md.",
+         "Lean 4 proof (binary-search loop invariant, line-table characterisation, UTF-8 boundary lemma) + differential oracle"),
  "C15": ("Lean theorems Yo.C15_line_no_panic / C15_load_no_panic (for every byte string - short, empty, odd digit counts, non-hex, "
          "non-ASCII, invalid UTF-8 - none of the loader's string slicings can panic: the model uses Rust's own is_char_boundary "
          "rule and the panicking index form), hexLoop_no_panic (fuel), C15_empty_refused. That exactly the listed bytes are "
